@@ -1,9 +1,11 @@
 SPECIFICATION Spec
 CONSTANTS
   K = 2
-  Reqs = {"g1", "g2", "g3", "g4"}
+  T = 2
+  Reqs = {1, 2, 3, 4, 5}
   Pick <- PickAll
+  Ops = {"get", "finish", "getquick", "post", "tick"}
 VIEW View
-INVARIANTS SlotsBounded
-PROPERTIES RefusedIffFull RefusalCounted PostUnaffected ReleaseOnAnswer
+INVARIANTS TypeOK SlotsBounded
+PROPERTIES RefusedIffFull RefusalCounted PostUnaffected ReleaseOnReturn TimeoutKeepsSlot
 CHECK_DEADLOCK FALSE
